@@ -696,14 +696,17 @@ Definition arrays_by_pair_b (docs : list doc) (st : state) : bool :=
     end) (ext_pairs docs).
 
 (* extra well-formedness under which the pair reading is meaningful: descriptor uids and stream resource uids
-   are declared once, every stream datum names a declared descriptor and resource, and the stream datums of one
-   stream resource all belong to one stream *)
+   are declared once, every stream datum names a declared descriptor and resource, the stream datums of one
+   stream resource all belong to one stream, and no stream resource uid is itself a full data key
+   "<name>_<key>" of a pair (_sres_nodes holds uids and full data keys in one dict) *)
 Definition desc_uids (docs : list doc) : list string :=
   flat_map (fun d => match d with DDescriptor x => [d_uid x] | _ => [] end) docs.
 Definition sres_uids (docs : list doc) : list string :=
   flat_map (fun d => match d with DSres r => [sr_uid r] | _ => [] end) docs.
+Definition sf_disjoint_b (docs : list doc) : bool :=
+  forallb (fun s => negb (existsb (fun p => seqb s (fdk (fst p) (snd p))) (ext_pairs docs))) (sres_uids docs).
 Definition wf_ext_b (docs : list doc) : bool :=
-  snodup_b (desc_uids docs) && snodup_b (sres_uids docs)
+  snodup_b (desc_uids docs) && snodup_b (sres_uids docs) && sf_disjoint_b docs
   && forallb (fun d => match pair_of docs d with Some _ => true | None => false end) (stream_datums docs)
   && forallb (fun d => forallb (fun d' => negb (seqb (sd_sres d) (sd_sres d'))
                                           || option_beq pair_beq (pair_of docs d) (pair_of docs d'))
